@@ -87,6 +87,11 @@ pub struct Connection<S, Stat, Disc, Filt, Stra, Auth, Loca> {
 
     // config and internal state
     keep_alive_id: Option<u64>,
+    /// Set once a keep-alive went unanswered. The connection has to end from then on, even if the
+    /// future that detected it is dropped while it still sends the timeout disconnect.
+    keep_alive_missed: bool,
+    /// Whether the timeout disconnect packet was already queued for sending.
+    timeout_disconnect_queued: bool,
     keep_alive_interval: Interval,
     auth_secret: Option<Vec<u8>>,
     max_packet_length: VarInt,
@@ -137,6 +142,8 @@ where
             localization_adapter,
             // config and internal state
             keep_alive_id: None,
+            keep_alive_missed: false,
+            timeout_disconnect_queued: false,
             keep_alive_interval: interval,
             auth_secret: None,
             max_packet_length: DEFAULT_MAX_PACKET_LENGTH,
@@ -210,6 +217,12 @@ where
         // dropped at any await point (it is raced against the adapters), so received bytes are kept
         // in the read buffer until they form a whole frame and only cancel-safe reads are awaited
         let (length, prefix) = loop {
+            // a missed keep-alive ends the connection, also if the future that noticed it was dropped
+            // (it is raced against the adapters) before the timeout disconnect was sent completely
+            if self.keep_alive_missed {
+                return Err(self.finish_missed_keep_alive().await);
+            }
+
             if let Some(frame) = self.buffered_frame()? {
                 break frame;
             }
@@ -225,13 +238,8 @@ where
                     if !keep_alive { continue; }
                     debug!("checking that keep-alive packet was received");
                     if self.keep_alive_id.is_some() {
-                        let reason = self.localization_adapter.localize(
-                            self.client_locale.as_deref(),
-                            "disconnect_timeout",
-                            &[]
-                        ).await?;
-                        self.send_packet(conf_out::DisconnectPacket { reason }).await?;
-                        return Err(Error::MissedKeepAlive);
+                        self.keep_alive_missed = true;
+                        return Err(self.finish_missed_keep_alive().await);
                     }
                     debug!("sending next keep-alive packet");
                     let id = crypto::generate_keep_alive();
@@ -312,6 +320,31 @@ where
         self.write_buffer.clear();
         self.write_position = 0;
         Ok(())
+    }
+
+    /// Sends the timeout disconnect packet (or what is left of it) and yields the error that ends the
+    /// connection. This future may be dropped at any await point and is then simply started again.
+    async fn finish_missed_keep_alive(&mut self) -> Error {
+        if self.timeout_disconnect_queued {
+            if let Err(err) = self.flush_write_buffer().await {
+                return err;
+            }
+            return Error::MissedKeepAlive;
+        }
+
+        let reason = match self
+            .localization_adapter
+            .localize(self.client_locale.as_deref(), "disconnect_timeout", &[])
+            .await
+        {
+            Ok(reason) => reason,
+            Err(err) => return err.into(),
+        };
+        self.timeout_disconnect_queued = true;
+        if let Err(err) = self.send_packet(conf_out::DisconnectPacket { reason }).await {
+            return err;
+        }
+        Error::MissedKeepAlive
     }
 
     fn handle_keep_alive(&mut self, id: u64) {
